@@ -153,7 +153,11 @@ class ListV(list):
 
 
 class DictV(dict):
-    pass
+    """Literal keys are real keys; entries stored under abstract keys are kept as (key, value) pairs."""
+
+    def __init__(self, *a, **kw):
+        super().__init__(*a, **kw)
+        self.pairs = []
 
 
 class Closure:
@@ -274,6 +278,7 @@ class Interp:
         self.depth = 0
         self.pre_bind = {}          # symbolic prefix name -> concrete text chosen on this path
         self.cur_line = 0
+        self.try_depth = 0
 
     # ------------------------------------------------------------------ infrastructure
     def choose(self, n, why):
@@ -621,6 +626,8 @@ class Interp:
             return v.v != 0
         if isinstance(v, S) and v.t.is_literal():
             return v.t.text() != ''
+        if isinstance(v, DictV) and v.pairs:
+            return True
         if isinstance(v, (Tup, ListV, DictV)):
             return len(v) > 0 if not getattr(v, 'open', False) else None
         if isinstance(v, Contents):
@@ -663,7 +670,9 @@ class Interp:
         return last if not isinstance(last, Bool) else Bool(is_and)
 
     def ev_IfExp(self, n):
-        src = unparse(n.test)
+        src = getattr(n, '_psa_src', None)
+        if src is None:
+            src = n._psa_src = unparse(n.test)
         if 'config.precisions' in src:
             return Other('precision')
         b = self.decide(self.ev(n.test), f"ifexp line {n.lineno}")
@@ -671,6 +680,11 @@ class Interp:
 
     def ev_BinOp(self, n):
         a, b = self.ev(n.left), self.ev(n.right)
+        hook = self.opts.get('binop_hook')
+        if hook is not None:
+            r = hook(self, n, a, b)
+            if r is not None:
+                return r
         if isinstance(n.op, ast.Add):
             ta, tb = self.as_tstr(a), self.as_tstr(b)
             if ta is not None and ta.is_literal() and ta.text() == '1 ' and isinstance(b, UserStr) and tb is None:
@@ -690,11 +704,6 @@ class Interp:
             return r
         if isinstance(n.op, ast.BitOr):
             return Other('union')
-        hook = self.opts.get('binop_hook')
-        if hook is not None:
-            r = hook(self, n, a, b)
-            if r is not None:
-                return r
         return self.arith(n.op, a, b, n)
 
     def ev_Compare(self, n):
@@ -815,6 +824,8 @@ class Interp:
             if isinstance(a, Other) and a.d.startswith('type-of:'):
                 return None
             return None
+        if isinstance(b, DictV) and b.pairs and not (ta is not None and ta.is_literal()) and not isinstance(a, Lit):
+            return None
         if isinstance(b, DictV):
             if ta is not None and ta.is_literal():
                 return ta.text() in b
@@ -895,6 +906,10 @@ class Interp:
             if -len(o) <= k < len(o):
                 return o[k]
             raise Raised('IndexError', n.lineno)
+        if isinstance(o, DictV) and o.pairs and not (isinstance(i, Lit) or (isinstance(i, S) and i.t.is_literal())):
+            return o.pairs[-1][1]
+        if isinstance(o, Obj) and 'elem' in o.attrs:
+            return o.attrs['elem']
         if isinstance(o, DictV):
             key = i.v if isinstance(i, Lit) else i.t.text() if isinstance(i, S) and i.t.is_literal() else None
             if key is not None:
@@ -959,7 +974,7 @@ class Interp:
                 return [it.elem]
             return list(it)
         if isinstance(it, DictV):
-            return [S(k) if isinstance(k, str) else Lit(k) for k in it]
+            return [S(k) if isinstance(k, str) else Lit(k) for k in it] + [k for k, v in it.pairs]
         hook = self.opts.get('iter_hook')
         if hook is not None:
             r = hook(self, it, node)
@@ -1127,8 +1142,11 @@ class Interp:
                     o[int(i.v)] = v
             elif isinstance(o, DictV):
                 i = self.ev(target.slice)
-                key = i.v if isinstance(i, Lit) else i.t.text() if isinstance(i, S) and i.t.is_literal() else repr(i)
-                o[key] = v
+                key = i.v if isinstance(i, Lit) else i.t.text() if isinstance(i, S) and i.t.is_literal() else None
+                if key is not None:
+                    o[key] = v
+                else:
+                    o.pairs.append((i, v))
         else:
             self.incomplete(node, 'assignment target')
 
@@ -1179,8 +1197,27 @@ class Interp:
         self.bind(n.target, r, n)
 
     def st_If(self, n):
-        b = self.decide(self.ev(n.test), f"if line {n.lineno}")
+        t = self.ev(n.test)
+        b = self.truth(t)
+        if b is None and self.try_depth == 0:
+            # a refusing branch (`if <data test>: raise E`): record the refusal and go on with the passing side
+            # instead of forking the whole exploration - the state after a raise is never used
+            for arm, other, val in ((n.body, n.orelse, False), (n.orelse, n.body, True)):
+                if len(arm) == 1 and isinstance(arm[0], ast.Raise) and not (len(other) == 1 and isinstance(other[0], ast.Raise)):
+                    self.note_raise(arm[0])
+                    b = val
+                    break
+        if b is None:
+            b = self.choose(2, f"if line {n.lineno}") == 0
         self.run(n.body if b else n.orelse)
+
+    def note_raise(self, r):
+        try:
+            self.st_Raise(r)
+        except Raised as exc:
+            self.R.outcomes.append(('raise', exc.t, exc.line, self))
+        except Incomplete:
+            raise
 
     def st_For(self, n):
         it = self.ev(n.iter)
@@ -1253,11 +1290,23 @@ class Interp:
             self.sink(n, 'assert', True)
 
     def st_FunctionDef(self, n):
+        src = getattr(n, '_psa_src', None)
+        if src is None:
+            src = n._psa_src = unparse(n, 100000)
+        if not any(k in src for k in ('Unit.', '.contents', 'get_volume', 'get_concentration', '.transfer(', '.volume',
+                                      '.remove(', '.fill_to(', '.dilute(', '_add(')):
+            # a helper without any unit content (string formatting, address arithmetic): kept opaque
+            self.env.set(n.name, Other('opaque-closure:' + n.name))
+            return
         self.env.set(n.name, Closure(n, self.env, n.name))
 
     def st_Try(self, n):
+        self.try_depth += 1
         try:
-            self.run(n.body)
+            try:
+                self.run(n.body)
+            finally:
+                self.try_depth -= 1
         except Raised as r:
             for h in n.handlers:
                 names = []
